@@ -11,8 +11,10 @@ use std::sync::Mutex;
 use std::sync::atomic::{AtomicU64, Ordering};
 
 use rten::NodeId;
-use rten::verif::graph::{Graph, PlanOptions};
-use rten::verif::operator::{OpError, OpRunContext, Operator, OutputList, OutputTypeList, OutputTypesContext};
+use rten::verif::graph::{CaptureEnv, Graph, PlanOptions, RunError};
+use rten::verif::operator::{OpError, OpRunContext, Operator, OutputList, OutputTypeList, OutputTypesContext, SubgraphOperator};
+use rten::verif::timing::Profiler;
+use rten::verif::weight_cache::WeightCache;
 use rten_base::bit_set::BitSet;
 use rten_shape_inference::InferShapes;
 use rten_tensor::Tensor;
@@ -49,8 +51,62 @@ impl Operator for Dummy {
     }
 }
 
+/// Operator with one explicit input and one subgraph whose only content is a
+/// value captured by name from the enclosing graph (like the body of If/Loop).
+struct DummySub {
+    sub: Graph,
+}
+
+impl std::fmt::Debug for DummySub {
+    fn fmt(&self, f: &mut std::fmt::Formatter<'_>) -> std::fmt::Result {
+        f.write_str("DummySub")
+    }
+}
+
+impl Operator for DummySub {
+    fn name(&self) -> &str {
+        "Sub"
+    }
+    fn run(&self, _ctx: &OpRunContext) -> Result<OutputList, OpError> {
+        Err(OpError::InvalidValue("dummy operator"))
+    }
+    fn max_inputs(&self) -> Option<usize> {
+        None
+    }
+    fn max_outputs(&self) -> Option<usize> {
+        Some(1)
+    }
+    fn output_types(&self, _ctx: &OutputTypesContext) -> Option<OutputTypeList> {
+        None
+    }
+    fn as_infer_shapes(&self) -> Option<&dyn InferShapes> {
+        None
+    }
+    fn as_subgraph_op(&self) -> Option<&dyn SubgraphOperator> {
+        Some(self)
+    }
+}
+
+impl SubgraphOperator for DummySub {
+    fn subgraphs(&self) -> smallvec::SmallVec<[&Graph; 2]> {
+        smallvec::SmallVec::from_slice(&[&self.sub])
+    }
+    fn run_subgraph<'a>(
+        &'a self,
+        _ctx: &OpRunContext,
+        _captures: CaptureEnv,
+        _weight_cache: Option<&[WeightCache]>,
+        _profiler: Option<&mut Profiler<'a>>,
+        _run_opts: Option<rten::RunOptions>,
+    ) -> Result<OutputList, RunError> {
+        unreachable!("plans are only built, never run")
+    }
+}
+
 #[derive(Clone, Copy, Debug, PartialEq, Eq, Hash)]
 pub enum Kind {
+    /// inputs: [explicit input, value captured by the operator's subgraph]
+    Sub,
     Un,
     UnInPlace,
     Bin,
@@ -62,7 +118,7 @@ pub enum Kind {
 impl Kind {
     fn n_in(self) -> usize {
         match self {
-            Kind::Bin => 2,
+            Kind::Bin | Kind::Sub => 2,
             _ => 1,
         }
     }
@@ -71,6 +127,7 @@ impl Kind {
     }
     fn name(self) -> &'static str {
         match self {
+            Kind::Sub => "Sub",
             Kind::Un => "Un",
             Kind::UnInPlace => "UnInPlace",
             Kind::Bin => "Bin",
@@ -80,6 +137,7 @@ impl Kind {
     }
     fn from_name(s: &str) -> Kind {
         match s {
+"Sub" => Kind::Sub,
             "Un" => Kind::Un,
             "UnInPlace" => Kind::UnInPlace,
             "Bin" => Kind::Bin,
@@ -155,6 +213,15 @@ fn build(g: &AGraph) -> Built {
             inputs.push(None);
         }
         let outputs: Vec<Option<NodeId>> = (0..k.n_out()).map(|j| Some(value_ids[g.first_out(i) + j])).collect();
+        if *k == Kind::Sub {
+            // explicit input = ins[0]; ins[1] is captured by name inside the subgraph
+            inputs.truncate(1);
+            let mut sub = Graph::new();
+            let cap = sub.add_value(Some(&format!("v{}", ins[1])), None, None);
+            sub.set_captures(&[cap]);
+            op_ids.push(graph.add_op(Some(&format!("op{i}")), Arc::new(DummySub { sub }), &inputs, &outputs));
+            continue;
+        }
         let op = Arc::new(Dummy { name: k.name(), in_place: *k == Kind::UnInPlace, n_out: k.n_out() });
         op_ids.push(graph.add_op(Some(&format!("op{i}")), op, &inputs, &outputs));
     }
@@ -444,7 +511,7 @@ pub fn run(ctx: Ctx) -> ! {
         check(&ctx, &g, &b, &Request { inputs: v("inputs"), outputs: v("outputs") }, &cnt);
         ctx.finish("exploration", json!({"evaluations": 1, "distinct_nontrivial": 2, "rule": "replay", "samples": [case]}), vec![]);
     }
-    let all = [Kind::Un, Kind::UnInPlace, Kind::Bin, Kind::BinOpt, Kind::Two];
+    let all = [Kind::Un, Kind::UnInPlace, Kind::Bin, Kind::BinOpt, Kind::Two, Kind::Sub];
     let mut graphs = Vec::new();
     graphs.extend(enumerate_graphs(1, 1, &all));
     graphs.extend(enumerate_graphs(1, 2, &all));
@@ -454,7 +521,7 @@ pub fn run(ctx: Ctx) -> ! {
         graphs.extend(enumerate_graphs(2, 2, &all));
         graphs.extend(enumerate_graphs(1, 4, &[Kind::UnInPlace, Kind::Two]));
     } else {
-        graphs.extend(enumerate_graphs(1, 3, &[Kind::UnInPlace, Kind::Two, Kind::Bin]));
+        graphs.extend(enumerate_graphs(1, 3, &[Kind::UnInPlace, Kind::Two, Kind::Bin, Kind::Sub]));
     }
     // watchdog for "planning always terminates"
     let plans_shared = Arc::new(AtomicU64::new(0));
@@ -536,7 +603,7 @@ pub fn run(ctx: Ctx) -> ! {
     let cov = json!({
         "evaluations": plans,
         "distinct_nontrivial": nonempty,
-        "rule": "every abstract graph (1 free value, 1 constant, <=2 operators over 5 kinds {plain, in-place-capable, binary, optional-input, two-output}; 3 operators over {in-place-capable, two-output, binary} (thorough: over all 5 kinds, plus 2 free values x 2 ops, plus 4 operators over {in-place-capable, two-output}) with every input slot ranging over ALL values (cycles included) x every request (input subsets, ordered output lists with repetition, operator ids, unknown ids); non-trivial = requests whose plan is non-empty",
+        "rule": "every abstract graph (1 free value, 1 constant, <=2 operators over 6 kinds {plain, in-place-capable, binary, optional-input, two-output, subgraph operator with one explicit input and one value captured by name}; 3 operators over {in-place-capable, two-output, binary, subgraph} (thorough: over all 6 kinds, plus 2 free values x 2 ops, plus 4 operators over {in-place-capable, two-output}) with every input slot ranging over ALL values (cycles included) x every request (input subsets, ordered output lists with repetition, operator ids, unknown ids); non-trivial = requests whose plan is non-empty",
         "samples": samples.take(),
         "exhaustive": true,
         "graphs": graphs.len(),
